@@ -236,6 +236,26 @@ theorem unpin_forgetting_unconfirmed_leaks :
      | .error _ => false) = true := by
   decide +kernel
 
+/-- The property's own bound fails in the variant as well: one operation earlier (`repinHistory` without its last
+insert: 32 messages buffered since the third pass, nothing pinned) 35 entries are resident, more than
+`window + main capacity (2) + currently pinned (0) + 32` — the bound of `bounded_notify_real` is tight (34 is reached
+by the code as it is, `unpin_confirmed_only_reaches_bound`), so a single forgotten entry breaks it. -/
+theorem unpin_forgetting_breaks_bounded_notify :
+    (match runV true (Cfg.real 1 false true (fun k _ => k)) (Cache.real 1) (repinHistory.take 134) with
+     | .ok c => decide (c.core.st.length = 35 ∧ c.wbuf.length = 32 ∧
+          pinnedNow (Cfg.real 1 false true (fun k _ => k)) c.pins c.core.st = 0 ∧
+          (capsOf 1).1 + (capsOf 1).2.2 + 0 + 32 = 34)
+     | .error _ => false) = true := by
+  decide +kernel
+
+/-- …the code as it is at the same point: 34 resident, exactly the bound. -/
+theorem unpin_confirmed_only_reaches_bound :
+    (match run (Cfg.real 1 false true (fun k _ => k)) (Cache.real 1) (repinHistory.take 134) with
+     | .ok c => decide (c.core.st.length = 34 ∧ c.wbuf.length = 32 ∧
+          pinnedNow (Cfg.real 1 false true (fun k _ => k)) c.pins c.core.st = 0)
+     | .error _ => false) = true := by
+  decide +kernel
+
 /-- …and the code as it is (toggle off = the model, `runV_false`) on the same history: the refused key stays in the
 Pinned region, its second `Unpinned` message evicts it, and the cache ends within its capacity. -/
 theorem unpin_confirmed_only_no_leak :
